@@ -17,13 +17,16 @@ import (
 	"context"
 	"errors"
 	"fmt"
+	"io"
 	"os"
 	"sort"
 	"strings"
 	"sync"
+	"sync/atomic"
 	"time"
 
 	"github.com/tychoish/fun"
+	"github.com/tychoish/fun/ers"
 	"github.com/tychoish/fun/pubsub"
 	"github.com/tychoish/fun/srv"
 
@@ -53,6 +56,7 @@ type Case struct {
 	Cancel   string `json:"cancel,omitempty"`  // group: grace | during-start | none | before-start ; others: "" (normal)
 	LingerMs int    `json:"linger_ms,omitempty"`
 	Settle   bool   `json:"settle,omitempty"` // wait for the accepted work to be picked up before cancelling
+	Hook     string `json:"hook,omitempty"`   // orch, one item: owner-in-start | orch-in-start (placed with the srv yield hooks)
 	Rounds   int    `json:"rounds,omitempty"` // repetitions of the scenario (each is one evaluation)
 }
 
@@ -129,7 +133,41 @@ func index(evs []Ev, k string, i int) int {
 
 // ---------------------------------------------------------------- outcomes
 
-func fails(oc string) bool    { return oc == "err" || oc == "pan" || oc == "blkerr" }
+// Outcomes: ok | err | pan | blk | blkerr, and the control-valued errors: an error that IS (eof, canceled,
+// deadline, skip, abort) or WRAPS (weof, wcanceled, wdeadline, wskip, wabort) io.EOF, context.Canceled,
+// context.DeadlineExceeded, fun.ErrIteratorSkip, ers.ErrCurrentOpAbort. For services, group members and cleanup
+// functions they are errors like any other; Iterator.ProcessParallel (the worker pools) treats the first three
+// as "stop" and ErrIteratorSkip as "skip" signals.
+func ctlBase(oc string) (error, bool) {
+	switch strings.TrimPrefix(oc, "w") {
+	case "eof":
+		return io.EOF, true
+	case "canceled":
+		return context.Canceled, true
+	case "deadline":
+		return context.DeadlineExceeded, true
+	case "skip":
+		return fun.ErrIteratorSkip, true
+	case "abort":
+		return ers.ErrCurrentOpAbort, true
+	}
+	return nil, false
+}
+
+func isCtl(oc string) bool { _, ok := ctlBase(oc); return ok }
+
+// ctlClass: "stop" (io.EOF / context errors), "skip" (ErrIteratorSkip), "" (everything else, incl. ErrCurrentOpAbort)
+func ctlClass(oc string) string {
+	switch strings.TrimPrefix(oc, "w") {
+	case "eof", "canceled", "deadline":
+		return "stop"
+	case "skip":
+		return "skip"
+	}
+	return ""
+}
+
+func fails(oc string) bool    { return oc == "err" || oc == "pan" || oc == "blkerr" || isCtl(oc) }
 func blocking(oc string) bool { return oc == "blk" || oc == "blkerr" }
 
 // body is the behaviour of a service Run / job / cleanup function with the given outcome.
@@ -156,10 +194,10 @@ func body(l *Log, begin, end string, i int, oc string, myErr error, linger time.
 			}
 		}
 		l.Add(end, i)
-		switch oc {
-		case "err", "blkerr":
+		switch {
+		case oc == "err" || oc == "blkerr" || isCtl(oc):
 			return myErr
-		case "pan":
+		case oc == "pan":
 			panic(myErr)
 		}
 		return nil
@@ -204,7 +242,15 @@ func (r *result) failf(sig, f string, a ...any) {
 
 func mkErrs(c Case, what string) []error {
 	errs := make([]error, len(c.Items))
-	for i := range errs {
+	for i, it := range c.Items {
+		if base, ok := ctlBase(it.Oc); ok {
+			if strings.HasPrefix(it.Oc, "w") {
+				errs[i] = fmt.Errorf("c11 case %d %s %d gave up: %w", c.ID, what, i, base)
+			} else {
+				errs[i] = base // the bare sentinel (the generator uses each bare sentinel at most once per case)
+			}
+			continue
+		}
 		errs[i] = fmt.Errorf("c11 case %d %s %d failed", c.ID, what, i)
 	}
 	return errs
@@ -300,11 +346,45 @@ func runOrch(c Case) *result {
 			return Ev{K: "OrchStart"}
 		})
 	}
+	// "raced" services are added unstarted while their owner calls Start on them concurrently (owner goroutine k
+	// takes every third raced service and starts it as soon as its Add has returned, or without waiting for it)
+	added := make([]chan struct{}, len(c.Items))
+	var raced []int
+	for i, it := range c.Items {
+		added[i] = make(chan struct{})
+		if it.Kind == "raced" && it.Phase == 1 {
+			raced = append(raced, i)
+		}
+	}
+	var owners sync.WaitGroup
+	for k := 0; k < 3 && len(raced) > 0; k++ {
+		owners.Add(1)
+		go func(k int) {
+			defer owners.Done()
+			for n := k; n < len(raced); n += 3 {
+				i := raced[n]
+				if n%4 != 3 {
+					select {
+					case <-added[i]:
+					case <-time.After(deadline):
+					}
+				}
+				l.Do(func() Ev {
+					if err := svcs[i].Start(ctx); err != nil {
+						return Ev{} // the orchestrator's Start won
+					}
+					return Ev{K: "EnvStart", I: i}
+				})
+			}
+		}(k)
+	}
 	for i, it := range c.Items {
 		if it.Phase == 1 {
 			add(i)
+			close(added[i])
 		}
 	}
+	owners.Wait()
 	if c.Settle {
 		// every fresh service added so far must get started while the context is live
 		ok := l.WaitFor(func(evs []Ev) bool {
@@ -348,7 +428,12 @@ func runOrch(c Case) *result {
 	evs := l.Snapshot()
 	res.log = evs
 
-	// ---- direct oracles
+	orchOracles(c, evs, res)
+	return res
+}
+
+// orchOracles: the property's direct oracles for an orchestrator scenario, evaluated on the recorded log.
+func orchOracles(c Case, evs []Ev, res *result) {
 	cpos := index(evs, "Cancel", -1)
 	wpos := index(evs, "WaitRet", -1)
 	var reported []int
@@ -378,6 +463,133 @@ func runOrch(c Case) *result {
 			res.failf("C11:Wait:error-spurious", "Orchestrator.Wait reports a failure of service %d, which does not fail", i)
 		}
 	}
+}
+
+// runOrchHook places one racing Start exactly, with the srv yield hooks (build tag verif). The hook is global,
+// so these scenarios run one at a time, before the concurrent ones.
+//
+//	owner-in-start: the owner's Start is held at srv.Service.Start.launched (Running() is already true, the call
+//	  has not finished); the service is added and the orchestrator looks at it; then the owner's call finishes.
+//	orch-in-start:  the service is added unstarted; the orchestrator's own Start is held at
+//	  srv.Service.Start.checked; the owner starts the service; then the orchestrator's call proceeds (and fails
+//	  with "already started").
+//
+// In both the orchestrator must still await the service and report its failure.
+func runOrchHook(c Case) *result {
+	res := &result{}
+	l := newLog()
+	errs := mkErrs(c, "service")
+	ctx, cancel := context.WithCancel(context.Background())
+	defer cancel()
+	linger := time.Duration(c.LingerMs) * time.Millisecond
+	svc := &srv.Service{Name: "s0", Run: body(l, "RunBegin", "RunEnd", 0, c.Items[0].Oc, errs[0], linger, nil, nil)}
+
+	var phase atomic.Int32 // 0: nothing armed
+	atPoint := make(chan struct{})
+	release := make(chan struct{})
+	picked := make(chan struct{}, 8)
+	hold := func() {
+		close(atPoint)
+		select {
+		case <-release:
+		case <-time.After(deadline):
+		}
+	}
+	srv.SetVerifYieldHook(func(name string) {
+		switch c.Hook {
+		case "owner-in-start":
+			if name == "srv.Service.Start.launched" && phase.CompareAndSwap(1, 2) {
+				hold()
+			} else if name == "srv.Service.Start.checked" && phase.Load() == 3 {
+				select {
+				case picked <- struct{}{}:
+				default:
+				}
+			}
+		case "orch-in-start":
+			if name == "srv.Service.Start.checked" && phase.CompareAndSwap(1, 2) {
+				hold()
+			}
+		}
+	})
+	defer srv.SetVerifYieldHook(nil)
+
+	or := &srv.Orchestrator{}
+	l.Do(func() Ev {
+		if err := or.Start(ctx); err != nil {
+			res.failf("C11:harness:orch-start", "%v", err)
+		}
+		return Ev{K: "OrchStart"}
+	})
+	add := func() {
+		l.Do(func() Ev {
+			if err := or.Add(svc); err != nil {
+				return Ev{K: "AddRej", I: 0}
+			}
+			return Ev{K: "Add", I: 0}
+		})
+	}
+	waitPoint := func() bool {
+		select {
+		case <-atPoint:
+			return true
+		case <-time.After(deadline):
+			res.failf("C11:harness:hook", "the yield point of scenario %s was not reached", c.Hook)
+			return false
+		}
+	}
+	switch c.Hook {
+	case "owner-in-start":
+		ownerDone := make(chan error, 1)
+		l.Add("EnvStart", 0) // the owner is the only one who knows the service: its Start will start it
+		phase.Store(1)
+		go func() { ownerDone <- svc.Start(ctx) }()
+		if waitPoint() {
+			phase.Store(3)
+			add()
+			// the repaired orchestrator calls Start itself (and blocks in it until the owner's call is done):
+			// that is the handshake; a tree without the repair never gets there, the grace only widens its window
+			select {
+			case <-picked:
+			case <-time.After(30 * time.Millisecond):
+			}
+		}
+		close(release)
+		select {
+		case err := <-ownerDone:
+			if err != nil {
+				res.failf("C11:harness:owner-start", "%v", err)
+			}
+		case <-time.After(deadline):
+			res.failf("C11:harness:owner-start", "the owner's Start did not return")
+		}
+	case "orch-in-start":
+		phase.Store(1)
+		add()
+		if waitPoint() {
+			l.Do(func() Ev {
+				if err := svc.Start(ctx); err != nil {
+					res.failf("C11:harness:owner-start", "%v", err)
+					return Ev{}
+				}
+				return Ev{K: "EnvStart", I: 0}
+			})
+		}
+		close(release)
+	}
+	if !l.WaitFor(func(evs []Ev) bool { return count(evs, "RunBegin", 0) > 0 }, deadline) {
+		res.failf("C11:harness:hook", "the service did not begin")
+	}
+	l.Do(func() Ev { cancel(); return Ev{K: "Cancel"} })
+	werr, ok := callWithDeadline(or.Wait)
+	if !ok {
+		res.failf("C11:Orchestrator:wait-stuck", "Orchestrator.Wait did not return within %v of the cancellation", deadline)
+	} else {
+		l.Do(func() Ev { return Ev{K: "WaitRet", W: isIDs(werr, errs)} })
+	}
+	l.WaitFor(func(evs []Ev) bool { return count(evs, "RunEnd", 0) > 0 }, deadline)
+	res.log = l.Snapshot()
+	orchOracles(c, res.log, res)
 	return res
 }
 
@@ -529,6 +741,15 @@ func runGroup(c Case) *result {
 // ---------------------------------------------------------------- WorkerPool / HandlerWorkerPool
 
 func poolContinues(c Case, oc string) bool {
+	switch ctlClass(oc) {
+	case "stop":
+		return c.Handler
+	case "skip":
+		return true
+	}
+	if isCtl(oc) {
+		return c.Handler || c.Coe
+	}
 	switch oc {
 	case "err", "blkerr":
 		return c.Handler || c.Coe
@@ -739,7 +960,9 @@ func runPool(c Case) *result {
 			res.failf("C11:"+name+":not-awaited", "job %d was still running when the pool service's Wait returned", i)
 			continue
 		}
-		if bpos >= 0 && fails(it.Oc) && !has(w, i) && !has(h, i) {
+		if bpos >= 0 && fails(it.Oc) && !has(w, i) && !has(h, i) && !c.Handler && ctlClass(it.Oc) != "" {
+			res.failf("C11:WorkerPool:control-error-dropped", "job %d returned a control-valued error (%s); the plain WorkerPool reports it neither through Wait nor to a handler (and an io.EOF / context error stops the whole pool even with ContinueOnError)", i, it.Oc)
+		} else if bpos >= 0 && fails(it.Oc) && !has(w, i) && !has(h, i) {
 			res.failf("C11:Wait:error-missing", "job %d (%s) ran and failed; neither Wait's error nor the handler saw its error (handler pool: %v)", i, it.Oc, c.Handler)
 		}
 	}
@@ -903,8 +1126,16 @@ func coqOc(oc string) string {
 		return "Pan"
 	case "blk":
 		return "Blk"
+	case "blkerr":
+		return "BlkErr"
 	}
-	return "BlkErr"
+	switch ctlClass(oc) {
+	case "stop":
+		return "CtlStop"
+	case "skip":
+		return "CtlSkip"
+	}
+	return "Err" // ers.ErrCurrentOpAbort is an ordinary error for the code under test
 }
 
 func natList(xs []int) string {
@@ -964,7 +1195,44 @@ func coqTerm(c Case, evs []Ev) string {
 
 // ---------------------------------------------------------------- generation
 
-var allOcs = []string{"ok", "err", "pan", "blk", "blkerr"}
+var allOcs = []string{"ok", "err", "pan", "blk", "blkerr", "ok", "err", "blkerr", "CTL"}
+var ctlOcs = []string{"eof", "weof", "canceled", "wcanceled", "deadline", "wdeadline", "skip", "wskip", "abort", "wabort"}
+
+// fixCtl replaces the placeholder "CTL" by a control-valued outcome. Each base sentinel is used by at most one
+// item of a case: errors.Is(err, io.EOF) cannot tell a bare io.EOF of one item from another item's error that
+// wraps io.EOF, so two such items could not be told apart in the error Wait returns.
+func fixCtl(r *kit.Rand, its []Item) {
+	used := map[string]bool{}
+	for i := range its {
+		if its[i].Oc == "CTL" {
+			its[i].Oc = ctlOcs[r.Intn(len(ctlOcs))]
+		}
+		if !isCtl(its[i].Oc) {
+			continue
+		}
+		wrapped := strings.HasPrefix(its[i].Oc, "w")
+		base := strings.TrimPrefix(its[i].Oc, "w")
+		if used[base] {
+			base = ""
+			for _, b := range []string{"eof", "canceled", "deadline", "skip", "abort"} {
+				if !used[b] {
+					base = b
+					break
+				}
+			}
+			if base == "" {
+				its[i].Oc = "err"
+				continue
+			}
+		}
+		used[base] = true
+		if wrapped {
+			its[i].Oc = "w" + base
+		} else {
+			its[i].Oc = base
+		}
+	}
+}
 
 func genItems(r *kit.Rand, n int, ocs []string, phases []int, kinds []string) []Item {
 	its := make([]Item, n)
@@ -978,6 +1246,7 @@ func genItems(r *kit.Rand, n int, ocs []string, phases []int, kinds []string) []
 			}
 		}
 	}
+	fixCtl(r, its)
 	return its
 }
 
@@ -987,9 +1256,20 @@ func genCase(r *kit.Rand, id int) Case {
 	case 0:
 		c.Kind = "orch"
 		n := r.Range(0, 7)
-		kinds := []string{"fresh", "fresh", "fresh", "running", "finished"}
+		kinds := []string{"fresh", "fresh", "fresh", "running", "finished", "raced"}
 		phases := []int{0, 1, 1, 2, 2, 3}
+		if r.Chance(1, 12) { // many unstarted services whose owners start them while the orchestrator picks them up
+			n = r.Range(24, 96)
+			kinds = []string{"raced", "raced", "raced", "fresh"}
+			phases = []int{1}
+			c.LingerMs = 2
+		}
 		c.Items = genItems(r, n, allOcs, phases, kinds)
+		for i := range c.Items {
+			if c.Items[i].Kind == "raced" && c.Items[i].Phase != 1 {
+				c.Items[i].Kind = "fresh"
+			}
+		}
 		c.ViaCtx = r.Chance(1, 5)
 		c.Settle = r.Chance(1, 3)
 		if r.Chance(1, 4) {
@@ -1001,7 +1281,7 @@ func genCase(r *kit.Rand, id int) Case {
 		c.Cancel = []string{"grace", "grace", "none", "during-start", "before-start"}[r.Intn(5)]
 		ocs := allOcs
 		if c.Cancel == "none" {
-			ocs = []string{"ok", "err", "pan"}
+			ocs = []string{"ok", "err", "pan", "CTL"}
 		}
 		if c.Cancel == "during-start" {
 			n = r.Range(8, 40)
@@ -1021,7 +1301,7 @@ func genCase(r *kit.Rand, id int) Case {
 			c.Limit = r.Range(1, 6)
 		}
 		n := r.Range(0, 12)
-		ocs := []string{"ok", "ok", "ok", "err", "pan", "blk", "blkerr"}
+		ocs := []string{"ok", "ok", "ok", "ok", "err", "err", "pan", "blk", "blkerr", "CTL"}
 		c.Items = genItems(r, n, ocs, []int{0, 1, 1, 1, 2, 2, 3}, nil)
 		c.Settle = r.Chance(2, 3)
 		if r.Chance(1, 5) {
@@ -1030,7 +1310,7 @@ func genCase(r *kit.Rand, id int) Case {
 	default:
 		c.Kind = "cleanup"
 		n := r.Range(0, 8)
-		c.Items = genItems(r, n, []string{"ok", "ok", "err", "pan"}, []int{0, 1, 1, 2, 2, 3}, nil)
+		c.Items = genItems(r, n, []string{"ok", "ok", "err", "pan", "CTL"}, []int{0, 1, 1, 2, 2, 3}, nil)
 		c.ViaCtx = r.Chance(1, 4)
 		c.Settle = r.Chance(1, 3)
 	}
@@ -1052,6 +1332,22 @@ func corpus() []Case {
 		// a service that was already running when it was added was only awaited until the cancellation
 		{Kind: "orch", LingerMs: 20, Items: []Item{{Oc: "blkerr", Kind: "running", Phase: 1}, {Oc: "ok", Kind: "fresh", Phase: 1}}, Rounds: 3},
 		{Kind: "orch", LingerMs: 20, Items: []Item{{Oc: "blk", Kind: "running", Phase: 0}}, Rounds: 2},
+		// a racing owner Start, placed with the yield hooks: the orchestrator looked at a service whose owner's Start
+		// was still in progress (Running() already true, isStarted not yet) and its Wait() returned "not started"
+		{Kind: "orch", Hook: "owner-in-start", LingerMs: 20, Items: []Item{{Oc: "blkerr", Kind: "raced", Phase: 1}}, Rounds: 3},
+		// ... and the owner starting the service between the run loop's checks and the orchestrator's own Start
+		{Kind: "orch", Hook: "orch-in-start", LingerMs: 20, Items: []Item{{Oc: "blkerr", Kind: "raced", Phase: 1}}, Rounds: 3},
+		{Kind: "orch", Hook: "orch-in-start", Items: []Item{{Oc: "weof", Kind: "raced", Phase: 1}}, Rounds: 2},
+		// the same race without hooks: many services, owners starting them while the orchestrator walks its queue
+		{Kind: "orch", LingerMs: 3, Items: rep(Item{Oc: "blkerr", Kind: "raced", Phase: 1}, 192), Rounds: 4},
+		// control-valued errors (is / wraps io.EOF, a context error, ErrIteratorSkip, ErrCurrentOpAbort)
+		{Kind: "cleanup", Items: append([]Item{{Oc: "eof", Phase: 1}, {Oc: "wdeadline", Phase: 1}, {Oc: "wcanceled", Phase: 1}, {Oc: "skip", Phase: 1}, {Oc: "abort", Phase: 1}}, rep(Item{Oc: "ok", Phase: 1}, 40)...), Rounds: 2},
+		{Kind: "cleanup", Items: append(rep(Item{Oc: "ok", Phase: 1}, 20), append([]Item{{Oc: "weof", Phase: 1}}, rep(Item{Oc: "ok", Phase: 1}, 20)...)...), Rounds: 2},
+		{Kind: "orch", Settle: true, Items: []Item{{Oc: "eof", Kind: "fresh", Phase: 1}, {Oc: "wcanceled", Kind: "fresh", Phase: 0}, {Oc: "deadline", Kind: "running", Phase: 1}, {Oc: "wskip", Kind: "finished", Phase: 1}, {Oc: "abort", Kind: "fresh", Phase: 1}}, Rounds: 2},
+		{Kind: "group", Cancel: "none", Items: []Item{{Oc: "eof"}, {Oc: "wdeadline"}, {Oc: "skip"}, {Oc: "ok"}}, Rounds: 2},
+		{Kind: "pool", Workers: 2, Handler: true, Coe: true, Cop: true, Settle: true, Items: []Item{{Oc: "eof", Phase: 1}, {Oc: "wcanceled", Phase: 1}, {Oc: "wskip", Phase: 1}, {Oc: "abort", Phase: 1}, {Oc: "ok", Phase: 1}, {Oc: "ok", Phase: 1}}, Rounds: 2},
+		// KNOWN FINDING C11:WorkerPool:control-error-dropped: the plain WorkerPool consumes a job's io.EOF as a signal
+		{Kind: "pool", Workers: 2, Coe: true, Cop: true, Items: []Item{{Oc: "ok", Phase: 1}, {Oc: "weof", Phase: 1}, {Oc: "ok", Phase: 1}}, Rounds: 1},
 		// plain scenarios
 		{Kind: "orch", Settle: true, Items: []Item{{Oc: "ok", Kind: "fresh", Phase: 0}, {Oc: "err", Kind: "fresh", Phase: 1}, {Oc: "pan", Kind: "fresh", Phase: 1}, {Oc: "blk", Kind: "fresh", Phase: 2}, {Oc: "err", Kind: "finished", Phase: 1}}, Rounds: 2},
 		{Kind: "pool", Workers: 2, Coe: true, Cop: true, Settle: true, Items: []Item{{Oc: "ok", Phase: 0}, {Oc: "err", Phase: 1}, {Oc: "pan", Phase: 1}, {Oc: "blk", Phase: 1}, {Oc: "ok", Phase: 2}}, Rounds: 2},
@@ -1070,6 +1366,9 @@ func rep(it Item, n int) []Item {
 func execute(c Case) *result {
 	switch c.Kind {
 	case "orch":
+		if c.Hook != "" {
+			return runOrchHook(c)
+		}
 		return runOrch(c)
 	case "group":
 		return runGroup(c)
@@ -1096,7 +1395,7 @@ func nontrivial(c Case) bool {
 }
 
 func key(c Case) string {
-	return fmt.Sprintf("%s|%v|%d|%v%v%v|%d|%v|%s|%v", c.Kind, c.Items, c.Workers, c.Handler, c.Coe, c.Cop, c.Limit, c.ViaCtx, c.Cancel, c.Settle)
+	return fmt.Sprintf("%s|%v|%d|%v%v%v|%d|%v|%s|%v|%s", c.Kind, c.Items, c.Workers, c.Handler, c.Coe, c.Cop, c.Limit, c.ViaCtx, c.Cancel, c.Settle, c.Hook)
 }
 
 func main() {
@@ -1168,9 +1467,17 @@ func main() {
 
 	// execute (scenarios are independent; most of their time is spent waiting)
 	results := make([]*result, len(todo))
+	for k := range todo {
+		if todo[k].Hook != "" { // the srv yield hook is global: these run alone
+			results[k] = execute(todo[k])
+		}
+	}
 	var wg sync.WaitGroup
 	sem := make(chan struct{}, 8)
 	for k := range todo {
+		if todo[k].Hook != "" {
+			continue
+		}
 		wg.Add(1)
 		sem <- struct{}{}
 		go func(k int) {
